@@ -19,4 +19,5 @@ def obligations(tier):
     c9 = __import__('C09').obligations(tier)
     obs += [o for o in c9 if o.name.startswith('drv.')]
     obs += [o for o in txobs.pairing('quick') if 'tx_create' in o.name or 'tx_freed' in o.name]
+    obs += [o for o in __import__('C07').obligations(tier) if '.layers.' in o.name]     # steady state: the previous message's decompressor is released
     return obs
